@@ -189,6 +189,38 @@ func (o *Obligation) Script(produceModels bool) string {
 		b.WriteString(d)
 		b.WriteString("\n")
 	}
+	// heap well-typedness: every cell of every heap version satisfies its type invariant
+	for _, line := range append(append([]string{}, vc.enc.extraDecls...), vc.decls...) {
+		if !strings.HasPrefix(line, "(declare-const H_") {
+			continue
+		}
+		f := strings.Fields(line)
+		hv := f[1]
+		hn := hv
+		if i := strings.Index(hv, "!"); i >= 0 {
+			hn = hv[:i]
+		}
+		t, ok := vc.enc.heapTypes[hn]
+		if !ok {
+			continue
+		}
+		sel := "(select " + hv + " l!t)"
+		var inv string
+		switch u := t.Underlying().(type) {
+		case *types.Slice:
+			inv = sx("valid_slice", sel)
+		case *types.Basic:
+			if u.Info()&types.IsInteger != 0 {
+				lo, hi := intRange(u)
+				inv = and(sx("<=", lo, sel), sx("<=", sel, hi))
+			}
+		case *types.Interface:
+			inv = implies(eq(sx("i_dyn", sel), "T_nil"), eq(sx("i_val", sel), "any_nil"))
+		}
+		if inv != "" {
+			fmt.Fprintf(&b, "(assert (forall ((l!t Loc)) (! %s :pattern (%s))))\n", inv, sel)
+		}
+	}
 	for _, a := range vc.axiomAsserts {
 		b.WriteString("(assert ")
 		b.WriteString(a)
